@@ -213,13 +213,30 @@ def strategy_density(cfg, opts, pars, p4, extra=None):
 def builder_and_strategy_cases(ctx, rnd, tier, cases):
     from tf_pwa.config_loader import ConfigLoader
     nev = 2
+    import copy
     todo = [(tag, cfg, M0, mf, None, None) for tag, cfg, M0, mf, _tree in configs(rnd) if _tree is None]
     ccfg, cM0, cmf, ctree = cc_config()
     todo.append(("cc4", ccfg, cM0, cmf, ctree, {"charge_conjugation": np.array([-1.0, 1.0])}))
+    # charge conjugation applied on the MOMENTA (cp_trans at its default): every strategy has to reflect the charge -1 events
+    c2 = copy.deepcopy(ccfg); c2["data"].pop("cp_trans", None)
+    todo.append(("cc4cp", c2, cM0, cmf, ctree, {"charge_conjugation": np.array([-1.0, 1.0])}))
+    # CP-violating chain couplings (is_cp: total * (1 + charge * delta)): the per-event charge reaches the couplings
+    c3_ = copy.deepcopy(c2); c3_["decay_chain"] = {"$all": {"is_cp": True}}
+    todo.append(("cc4iscp", c3_, cM0, cmf, ctree, {"charge_conjugation": np.array([-1.0, 1.0])}))
+    # declared identical (spin-0) particles: the symmetrised amplitude
+    imf = {"B": 0.5, "C": 0.14, "D": 0.14}
+    ires = {"R_BC": {"pair": "R_BC", "J": 1, "P": -1, "mass": 0.9, "width": 0.05}, "R_CD": {"pair": "R_CD", "J": 0, "P": 1, "mass": 0.6, "width": 0.3}}
+    todo.append(("ident", ampkit.three_body_config(1.9, imf, ires, data_opts={"identical_particles": [["C", "D"]]}), 1.9, imf, None, None))
     for tag, cfg, M0, mf, tree, extra in todo:
         config = ConfigLoader(cfg)
         amp = config.get_amplitude()
         pars = ampkit.random_params(amp, rnd)
+        if tag == "cc4iscp":
+            pp = dict(amp.get_params())
+            for k in pp:
+                if "delta" in k:
+                    pp[k] = rnd.uniform(-0.5, 0.5)
+            amp.set_params(pp); pars = {k: float(v) for k, v in amp.get_params().items()}
         p4 = ampkit.gen_events(M0, mf, nev, rnd.randrange(10 ** 6)) if tree is None else ampkit.gen_tree_events(tree, mf, M0, nev, rnd.randrange(10 ** 6))
         data = cal_data(config, p4, extra)
         with Capture() as cap:
@@ -238,6 +255,10 @@ def builder_and_strategy_cases(ctx, rnd, tier, cases):
         # density rebuilt in Coq from the chain tensors (event by event)
         rebuilt = []
         for e in range(nev):
+            if tag == "ident":
+                # the symmetrised density is not |sum of chain tensors|^2: the strategies are compared with the default density itself
+                rebuilt.append(None)
+                continue
             chains = "[" + "; ".join("[" + "; ".join(qc(z) for z in np.asarray(t[e]).reshape(-1)) + "]" for t in chain_tensors) + "]"
             rebuilt.append(chains)
             tol = 1e-11 * max(1e-300, float(dens[e]))
@@ -248,6 +269,8 @@ def builder_and_strategy_cases(ctx, rnd, tier, cases):
             try:
                 if extra is not None and sname == "lazy_call":
                     continue  # lazy data carry the extras through LazyCall.extra: covered by C18
+                if tier == "quick" and tag in ("cc4cp", "cc4iscp") and sname in ("tf_function", "tf_function_no_id", "jit_compile"):
+                    continue  # graph compilation of the 4-body cascade is exercised on cc4 (and on these two in the thorough tier)
                 first, second = strategy_density(cfg, opts, pars, p4, extra)
             except Exception as ex:
                 ctx.count("strategy_error:" + sname)
@@ -262,12 +285,23 @@ def builder_and_strategy_cases(ctx, rnd, tier, cases):
                 continue
             ctx.count("strategy:" + sname)
             ctx.evaluations += 2
+            # OPEN findings, reported from these two fixed configurations only (every other (config, strategy) cell is regular):
+            known = None
+            if tag == "ident" and sname in ("cached_amp", "cached_shape", "base_factor"):
+                known = ("cached strategies (cached_amp / cached_shape / base_factor) with declared identical particles", "identical_particles:cached")
+            if tag == "cc4iscp" and sname == "cached_shape":
+                known = ("amp_model cached_shape with CP-violating chain couplings (is_cp) and charge -1 events", "cached_shape:is_cp")
             for which, val in (("first", first), ("second", second)):
                 for e in range(nev):
                     tol = 1e-9 * max(1e-300, float(dens[e]))
+                    ref = ("density_q %s" % rebuilt[e]) if rebuilt[e] is not None else Qq(float(dens[e]))
+                    meta = dict(meta0, layer="strategy", strategy=sname, options=opts, call=which, event=e, impl_density=float(val[e]), default_density=float(dens[e]))
+                    if known:
+                        meta["known"] = known
+                        if which == "second" or e > 0:
+                            continue  # one obligation per known cell
                     cases.append(("S_%s_%s_%s_e%d" % (tag, sname, which, e),
-                                  "Qle_bool (Qabs (density_q %s - %s)) %s = true" % (rebuilt[e], Qq(float(val[e])), Qq(tol)), "vm_compute; reflexivity",
-                                  dict(meta0, layer="strategy", strategy=sname, options=opts, call=which, event=e, impl_density=float(val[e]), default_density=float(dens[e]))))
+                                  "Qle_bool (Qabs (%s - %s)) %s = true" % (ref, Qq(float(val[e])), Qq(tol)), "vm_compute; reflexivity", meta))
                     ctx.distinct.add(("S", tag, sname, which, e))
 
 
@@ -332,7 +366,7 @@ def search(ctx, fails):
 def run(ctx):
     rnd = random.Random(ctx.seed * 1000003 + 5)
     ctx.rule = ("einsum grammar: 2-4 operands, rank<=4, sizes {1,2,3}, optional ellipsis batch (size 1/2); builder expressions captured on spin-0 / spin-1/2 / vector configs; "
-                "strategy matrix x 2 events x first/second call; cached_int/cached_amp NLL+gradient; distinct = distinct expressions / (config,strategy,call,event)")
+                "strategy matrix x 2 events x first/second call on spin configs, a 4-body parity-violating cascade with charge -1 events (conjugation on the couplings, on the momenta, and with CP-violating is_cp couplings) and a declared-identical pair; cached_int/cached_amp NLL+gradient; distinct = distinct expressions / (config,strategy,call,event)")
     common.theorem_stage(ctx)
     cases = einsum_function_cases(ctx, rnd, 60 if ctx.tier == "quick" else 600)
     ctx.log("einsum cases", len(cases))
@@ -344,6 +378,10 @@ def run(ctx):
     res = common.coq_cases(ctx, "c05", HEADER, [c[:3] for c in cases], per_file=25, case_timeout=120)
     for cid, stmt, tac, meta in cases:
         if res[cid] != "OK":
+            if meta.get("known"):
+                ctx.fail(meta["layer"], cid, "strategy %s: density %.6g, default evaluation %.6g" % (meta["strategy"], meta["impl_density"], meta["default_density"]), inp=meta,
+                         site=meta["known"][0], fingerprint=meta["known"][1], failing_input={k: v for k, v in meta.items() if k != "known"})
+                continue
             ctx.fail(meta["layer"], cid, "value differs from the reference semantics at layer %s (%s)" % (meta["layer"], res[cid]), inp=meta,
                      site="strategy:" + str(meta.get("strategy", meta["layer"])), fingerprint=str(meta.get("strategy", meta["layer"])))
     return common.finish(ctx, search=search, technique=TECHNIQUE, extra_assumptions=[
